@@ -150,9 +150,10 @@ def check(prop, tier, seed):
         # a second, longer attempt for anything left (so that load does not flip verdicts)
         retry = [i for i, r in enumerate(results) if r["status"] == "undischarged"]
         if retry and len(retry) <= 40:
-            d2 = verify.Discharger(eng, workdir=workdir, timeout_s=timeout_s * 3, jobs=jobs, solvers=["z3new", "cvc5"])
+            d2 = verify.Discharger(eng, workdir=workdir, timeout_s=timeout_s * 2, jobs=jobs, solvers=["z3new", "cvc5"])
             d2.cache, d2._bg, d2._str = d.cache, d._bg, getattr(d, "_str", None)
-            d2.no_slices = len(retry) > 6          # the sliced variants were tried in the first pass; repeat them with the long budget only for a few
+            d2.no_slices = True          # the sliced variants were tried in the first pass (budgets are CPU time: load does not flip them)
+            d2.single_stage = True
             again = d2.discharge_all([eng.obligations[i] for i in retry])
             for i, r in zip(retry, again):
                 if r["status"] == "discharged":
